@@ -331,10 +331,7 @@ func (p *Planner) tryOptimizeJoinDirection(node *invertibleTypeJoin, parentPlan 
 		// If the relation is one sided we cannot invert the join, so return early
 		return nil
 	}
-	if childTop, ok := node.childSide.plan.(*selectTopNode); ok && childTop.order != nil {
-		// An inverted join iterates over the child plan and re-initialises it to collect the
-		// children of every parent found. An order node in the child plan does not survive that:
-		// it would report the outer iteration as exhausted after the first parent.
+	if !canInvertJoin(node, parentPlan) {
 		return nil
 	}
 	optimized, err := p.tryOptimizeJoinDirectionByFilter(node, parentPlan)
@@ -346,6 +343,46 @@ func (p *Planner) tryOptimizeJoinDirection(node *invertibleTypeJoin, parentPlan 
 	}
 
 	return err
+}
+
+// canInvertJoin reports whether the join may be driven from its child side.
+//
+// An inverted join yields the parent documents in the order of the child index. The plans that a
+// parallelNode merges with it document by document must yield the same parents in the same order,
+// which only holds for joins over the same relation (they are all inverted in the same way).
+func canInvertJoin(node *invertibleTypeJoin, parentPlan *selectTopNode) bool {
+	joins := []*invertibleTypeJoin{node}
+	if multi, ok := parentPlan.selectNode.source.(*parallelNode); ok {
+		joins = joins[:0]
+		relName := node.parentSide.relFieldDef.Value().Name
+		for _, child := range multi.children {
+			switch c := child.(type) {
+			case *typeIndexJoin:
+				var other *invertibleTypeJoin
+				switch j := c.joinPlan.(type) {
+				case *typeJoinOne:
+					other = &j.invertibleTypeJoin
+				case *typeJoinMany:
+					other = &j.invertibleTypeJoin
+				}
+				if other == nil || other.parentSide.relFieldDef.Value().Name != relName {
+					return false
+				}
+				joins = append(joins, other)
+			case *scanNode:
+				return false
+			}
+		}
+	}
+	for _, join := range joins {
+		if childTop, ok := join.childSide.plan.(*selectTopNode); ok && childTop.order != nil {
+			// An inverted join iterates over the child plan and re-initialises it to collect the
+			// children of every parent found. An order node in the child plan does not survive that:
+			// it would report the outer iteration as exhausted after the first parent.
+			return false
+		}
+	}
+	return true
 }
 
 // tryOptimizeJoinDirectionByFilter tries to optimize the join direction by using a filter on the child side.
